@@ -219,6 +219,7 @@ func runC14(p *Prog, r *Report) {
 	localConfigFunctionsOnlyRule(p, r, "C14.R9")
 	declaredSignatureRule(p, r, "C14.R10")
 	localConfigNameRule(p, r, "C14.R11")
+	patternsUnmodifiedRule(p, r, "C14.R12")
 }
 
 // guardSpec: a validation that must exist in method.Parse as `if COND { return nil, <error> }`.
